@@ -33,7 +33,8 @@ BOUNDED = {
                   "diagnostic, and nothing that remains refers to a removed class",
         bound="3 models + 1 broken schema, each model with 0-2 references (property / array items / union member) to the "
               "others incl. cycles, also from inside nested inline objects (depth 1 and 2); 2500 resp. 20000 sampled graphs x 2 kinds "
-              "of breakage"),
+              "of first-stage breakage; 400 resp. 4000 graphs x 2 kinds of second-stage breakage (a schema composed of itself / of "
+              "something missing) x declared last / first"),
     "body_refs": dict(
         unit=P + "bodies:_resolve_reference", where="openapi_python_client/parser/bodies.py",
         statement="a chain of request body references ends in an inline body (then the endpoint has it) or is dangling/"
@@ -108,6 +109,12 @@ BOUNDED = {
         where="openapi_python_client/parser/bodies.py",
         statement="reordering the entries of `paths` changes no generated file (documents that generate without diagnostics)",
         bound="3 families of 3 path items, all 6 orders each"),
+    "shared_bad_component": dict(
+        unit="openapi_python_client.parser.properties.schemas:parameter_from_reference / EndpointCollection.from_data (diagnostic objects)",
+        where="openapi_python_client/parser/openapi.py",
+        statement="when several operations use one rejected / missing component (parameter, response, request body), each of them is "
+                  "generated or named by a diagnostic of its own (a shared diagnostic object is renamed by the last user)",
+        bound="4 kinds of bad component x 2-3 operations"),
     "equivalent_docs": dict(
         unit="generate() on pairs of documents that say the same thing in different notation", where="openapi_python_client/",
         statement="3.0 nullable vs 3.1 type list / null member, single-member allOf/oneOf/anyOf wrapper vs bare $ref, JSON vs "
